@@ -7,6 +7,7 @@ import (
 	"encoding/json"
 	"fmt"
 	"os"
+	"runtime"
 	"syscall"
 
 	"verifharness/kit"
@@ -14,6 +15,9 @@ import (
 )
 
 func main() {
+	// keep every API call of the workload on one OS thread: strace counts
+	// injected faults per thread (fault runs of C07)
+	runtime.LockOSThread()
 	if len(os.Args) != 3 {
 		fmt.Fprintln(os.Stderr, "usage: tracebin <workload.json> <dir>")
 		os.Exit(2)
